@@ -303,6 +303,50 @@ class FnSpec:
         lines.append(indent + self.sig_text() + " " + self.body_text())
         return "\n".join(lines)
 
+    # -- fn-pointer witness ---------------------------------------------------
+    def inst(self, text):
+        """Instantiate non-deps generic parameters in a type text (type params -> i32, consts -> 2)."""
+        import re
+        for name, _b, _p in self.type_params:
+            text = re.sub(r"\b%s\b" % re.escape(name), "i32", text)
+        for name, _t in self.const_params:
+            text = re.sub(r"\b%s\b" % re.escape(name), "2", text)
+        return text
+
+    def ptr_type(self, app_ty, with_receiver):
+        """The signature as a fn-pointer type, seen as a function of (receiver, args...)."""
+        q = ""
+        if self.is_unsafe:
+            q += "unsafe "
+        if self.extern_c:
+            q += 'extern "C" '
+        ps = []
+        lt = (self.deps_lifetime + " ") if self.deps_lifetime else ""
+        if self.deps_kind == "no_deps":
+            if with_receiver:
+                ps.append("&" + app_ty)
+        elif self.by_value():
+            ps.append(app_ty)
+        else:
+            ps.append("&%s%s" % (lt, app_ty))
+        for p in self.params:
+            ps.append(self.inst(p.type_text()))
+        if self.ret == "unit":
+            r = ""
+        elif self.ret == "generic":
+            r = " -> i32"
+        else:
+            r = self.inst(self.ret_text())
+        return "%sfn(%s)%s" % (q, ", ".join(ps), r)
+
+    def witness_generics(self):
+        items = []
+        for lt, outl in self.lifetimes:
+            extra = [w.split(":")[1].strip() for w in self.where_extra if w.strip().startswith(lt + ":")]
+            allb = list(outl) + extra
+            items.append(lt + ((": " + " + ".join(allb)) if allb else ""))
+        return ("<" + ", ".join(items) + ">") if items else ""
+
     # -- calls -------------------------------------------------------------
     def call_args(self, base, uniq):
         """-> (setup statements, [arg exprs], [debug strings of logged bindings])"""
